@@ -2,6 +2,7 @@ import PhononModel.Lemmas.Roundtrip
 import PhononModel.Lemmas.CommPointsClassic
 import PhononModel.Lemmas.Categorize
 import PhononModel.Lemmas.SymmetrizeCompact
+import PhononModel.Lemmas.TimeReversal
 import Mathlib.Tactic.FinCases
 import Mathlib.Tactic.NormNum
 /-!
@@ -195,7 +196,7 @@ theorem roundtrip_dm (L : Lat np ns N) (hwf : L.wf = true) (hN : 0 < N) (Z : Zet
     (q' : Fin N) :
     dynmat (cT L) (dynmatToFc L.s2pp D ms (phI L Z ψ mult)) ms (phF L Z ψ mult q') = D q' := by
   unfold dynmat
-  rw [roundtrip_dm_raw (L.wf_sound hwf) hN Z ψ hψ hψn mult hm ms hms D hTR q']
+  rw [roundtrip_dm_raw (L.wf_sound hwf) hN Z ψ hψ hψn mult hm ms hms D q' (fun q hd => hTR q q' hd)]
   exact hermitize_of_hermitian _ (hH q')
 
 /-- (5) `Phonopy.ph2ph`: the force constants of the target supercell are the inverse transform of
@@ -212,6 +213,119 @@ theorem ph2ph_preserves {N0 : Nat} (emb : Fin N0 → Fin N)
     (hTR : ∀ q q', P3.Dvd L.Nd ((L.kq q).add (L.kq q')) → ∀ i a j b, D q' i a j b = (D q i a j b).conj) :
     ∀ q0, dynmat (cT L) (dynmatToFc L.s2pp D ms (phI L Z ψ mult)) ms (phF L Z ψ mult (emb q0)) = D (emb q0) :=
   fun q0 => roundtrip_dm L hwf hN Z ψ hψ hψn mult hm ms hms D hH hTR (emb q0)
+
+/-! ## `Phonopy.ph2ph(with_nac=True)` (`ph2fc`)
+
+The source object computes its matrices *with* the non-analytical correction at the target's
+commensurate points, the target force constants are their inverse transform, and the returned
+object carries no NAC parameters.  `L` describes the target supercell; `D q` is the source's NAC
+matrix at the target's `q`-th point. -/
+
+/-- pointwise form of `roundtrip_dm`: only the matrix at `q'` and at its negative matter. -/
+theorem ph2ph_preserves_at (L : Lat np ns N) (hwf : L.wf = true) (hN : 0 < N) (Z : Zeta K L.Nd)
+    (ψ : Fin N → Fin np → Fin np → Cx K) (hψ : ∀ q j i, (ψ q j i).conj * ψ q j i = 1)
+    (hψn : ∀ q q' j i, P3.Dvd L.Nd ((L.kq q).add (L.kq q')) → ψ q' j i = (ψ q j i).conj)
+    (mult : Fin ns → Fin np → Nat) (hm : ∀ k i, 0 < mult k i)
+    (ms : Fin np → Fin np → K) (hms : ∀ i j, ms i j ≠ 0) (D : Fin N → DM np K) (q' : Fin N)
+    (hH : IsHermitian (D q'))
+    (hTR : ∀ q, P3.Dvd L.Nd ((L.kq q).add (L.kq q')) → D q' = C08.conjDM (D q)) :
+    dynmat (cT L) (dynmatToFc L.s2pp D ms (phI L Z ψ mult)) ms (phF L Z ψ mult q') = D q' := by
+  unfold dynmat
+  rw [roundtrip_dm_raw (L.wf_sound hwf) hN Z ψ hψ hψn mult hm ms hms D q'
+    (fun q hd i a j b => by rw [hTR q hd]; rfl)]
+  exact hermitize_of_hermitian _ hH
+
+/-- Wang's matrix is the plain one whenever the phases of every sublattice sum to zero (a q-point
+commensurate with the *source* supercell, `wang_commensurate_noop`) or no vector enters the
+correction (zone centre without direction). -/
+theorem wang_plain {nps nss nrs : Nat} (Ts : FTables nps nss nrs) (fc : Fin nrs → Fin nss → Fin 3 → Fin 3 → K)
+    (ms : Fin nps → Fin nps → K) (ph : Phases nps nss K) (f : K) (qc : C08.V3 K) (tolSq : K) (eps : C08.T3 K)
+    (born : Fin nps → C08.T3 K)
+    (h : (∀ i j, C08.phaseSum Ts ph i j = 0) ∨ C08.normSq qc < tolSq) :
+    C08.wangDynmat Ts fc ms ph f qc none tolSq eps born = dynmat Ts fc ms ph := by
+  unfold C08.wangDynmat C08.nacVector
+  rcases h with h | h
+  · split
+    · rfl
+    · unfold dynmat; congr 1; funext i a j b
+      rw [C08.dynmatRawCS_eq, h i j]; simp
+  · simp [h]
+
+/-- (5a) **ph2ph with Wang's NAC preserves the matrices at the source-commensurate points**:
+at such a point `q'` and at its negative `q'n` the corrected matrix is the plain one
+(`wang_plain`), the phase table of `q'n` is the conjugate one, hence `D(q'n) = conj D(q')` and the
+target object reproduces `D(q')` exactly.  (At target points that are *not* commensurate with the
+source supercell Wang's constant depends on the representative of q and no such statement holds.) -/
+theorem ph2ph_wang_preserves (L : Lat np ns N) (hwf : L.wf = true) (hN : 0 < N) (Z : Zeta K L.Nd)
+    (ψ : Fin N → Fin np → Fin np → Cx K) (hψ : ∀ q j i, (ψ q j i).conj * ψ q j i = 1)
+    (hψn : ∀ q q' j i, P3.Dvd L.Nd ((L.kq q).add (L.kq q')) → ψ q' j i = (ψ q j i).conj)
+    (mult : Fin ns → Fin np → Nat) (hm : ∀ k i, 0 < mult k i)
+    (ms : Fin np → Fin np → K) (hms : ∀ i j, ms i j ≠ 0)
+    {nss nrs : Nat} (Ts : FTables np nss nrs) (fcS : Fin nrs → Fin nss → Fin 3 → Fin 3 → K)
+    (phS : Fin N → Phases np nss K) (f : K) (qc : Fin N → C08.V3 K) (tolSq : K) (eps : C08.T3 K)
+    (born : Fin np → C08.T3 K) (q' q'n : Fin N)
+    (hneg : P3.Dvd L.Nd ((L.kq q'n).add (L.kq q')))
+    (hplain : (∀ i j, C08.phaseSum Ts (phS q') i j = 0) ∨ C08.normSq (qc q') < tolSq)
+    (hplainn : (∀ i j, C08.phaseSum Ts (phS q'n) i j = 0) ∨ C08.normSq (qc q'n) < tolSq)
+    (hconj : phS q'n = C08.conjPh (phS q')) :
+    let D : Fin N → DM np K := fun q => C08.wangDynmat Ts fcS ms (phS q) f (qc q) none tolSq eps born
+    dynmat (cT L) (dynmatToFc L.s2pp D ms (phI L Z ψ mult)) ms (phF L Z ψ mult q') = D q' := by
+  intro D
+  have h1 : D q' = dynmat Ts fcS ms (phS q') := wang_plain Ts fcS ms _ f _ tolSq eps born hplain
+  have h2 : D q'n = dynmat Ts fcS ms (phS q'n) := wang_plain Ts fcS ms _ f _ tolSq eps born hplainn
+  apply ph2ph_preserves_at L hwf hN Z ψ hψ hψn mult hm ms hms D q'
+  · rw [h1]; exact C08.dynmat_isHermitian _ _ _ _
+  · intro q hd
+    have hq : q = q'n := (L.wf_sound hwf).neg_unique (q := q') (by rw [P3.add_comm']; exact hd) (by rw [P3.add_comm']; exact hneg)
+    rw [hq, h1, h2, hconj, C08.dynmat_time_reversal]
+    funext i a j b
+    simp [C08.conjDM]
+
+/-- (5b) **ph2ph with the Gonze–Lee NAC**: the target object reproduces `D_GL(q')` at a target point
+`q'` provided the list contains the *exact* negative of `q'` (`q_cart(q'n) = −q_cart(q')`, conjugate
+phase tables, the weights of `−K` equal those of `K`) and the `G` list is symmetric under `G ↦ −G`
+(certificate `gListWf`, real Hermitian `dd_q0`).  **Caveat (first zone):** the implementation
+lists the points in `[0,1)³`, where the representative of `−q'` is `−q' + G₀`; for `G₀ ≠ 0` the
+truncated reciprocal sum runs over a shifted set of `K = G + q` and `D_GL(−q'+G₀) = conj D_GL(q')`
+holds only up to the neglected tail — then preservation is to the reciprocal-sum precision only
+(checked by the oracle), exactly as for `gl_commensurate_partial`. -/
+theorem ph2ph_gl_preserves (L : Lat np ns N) (hwf : L.wf = true) (hN : 0 < N) (Z : Zeta K L.Nd)
+    (ψ : Fin N → Fin np → Fin np → Cx K) (hψ : ∀ q j i, (ψ q j i).conj * ψ q j i = 1)
+    (hψn : ∀ q q' j i, P3.Dvd L.Nd ((L.kq q).add (L.kq q')) → ψ q' j i = (ψ q j i).conj)
+    (mult : Fin ns → Fin np → Nat) (hm : ∀ k i, 0 < mult k i)
+    (ms : Fin np → Fin np → K) (hms : ∀ i j, ms i j ≠ 0) (hsym : ∀ i j, ms j i = ms i j)
+    {nss nrs nG : Nat} (Ts : FTables np nss nrs) (fcSR : Fin nrs → Fin nss → Fin 3 → Fin 3 → K)
+    (phS : Fin N → Phases np nss K) (G : Fin nG → C08.V3 K) (nu : Fin nG → Fin nG) (hG : C08.gListWf G nu = true)
+    (qc : Fin N → C08.V3 K) (eps : C08.T3 K) (born : Fin np → C08.T3 K) (tolSq : K)
+    (expv : Fin N → Fin nG → K) (phG : Fin nG → Fin np → Fin np → Cx K)
+    (ddq0 : Fin np → Fin 3 → Fin 3 → Cx K) (factor : K)
+    (hphG : ∀ g i j, phG g j i = (phG g i j).conj) (hphGn : ∀ g i j, phG (nu g) i j = (phG g i j).conj)
+    (hq0 : ∀ i a b, ddq0 i b a = (ddq0 i a b).conj) (hreal : ∀ i a b, (ddq0 i a b).im = 0)
+    (q' q'n : Fin N) (hneg : P3.Dvd L.Nd ((L.kq q'n).add (L.kq q')))
+    (hqc : qc q'n = fun i => -qc q' i) (hconj : phS q'n = C08.conjPh (phS q'))
+    (he : ∀ g, expv q'n (nu g) = expv q' g) :
+    let D : Fin N → DM np K := fun q =>
+      C08.glDynmat Ts fcSR ms (phS q) G (qc q) none eps born tolSq (expv q) phG ddq0 factor
+    dynmat (cT L) (dynmatToFc L.s2pp D ms (phI L Z ψ mult)) ms (phF L Z ψ mult q') = D q' := by
+  intro D
+  have hinv : ∀ g, nu (nu g) = g ∧ ∀ i, G (nu g) i = -G g i := by
+    intro g
+    simp only [C08.gListWf, List.all_eq_true, List.mem_finRange, forall_const, Bool.and_eq_true, beq_iff_eq] at hG
+    exact hG g
+  let ν : Fin nG ≃ Fin nG := ⟨nu, nu, fun g => (hinv g).1, fun g => (hinv g).1⟩
+  have hν : C08.GSym G ν := ⟨fun g i => (hinv g).2 i⟩
+  apply ph2ph_preserves_at L hwf hN Z ψ hψ hψn mult hm ms hms D q'
+  · exact C08.glDynmat_isHermitian Ts fcSR ms _ G _ none eps born tolSq _ phG ddq0 factor hphG hq0 hsym
+  · intro q hd
+    have hq : q = q'n := (L.wf_sound hwf).neg_unique (q := q') (by rw [P3.add_comm']; exact hd) (by rw [P3.add_comm']; exact hneg)
+    have := C08.glDynmat_time_reversal Ts fcSR ms (phS q') G ν hν (qc q') none eps born tolSq (expv q') (expv q'n)
+      phG ddq0 factor he hphGn hreal
+    have e : D q'n = C08.conjDM (D q') := by
+      show C08.glDynmat Ts fcSR ms (phS q'n) G (qc q'n) none eps born tolSq (expv q'n) phG ddq0 factor = _
+      rw [hconj, hqc]; exact this
+    rw [hq, e]
+    funext i a j b
+    simp [C08.conjDM]
 
 /-! ## non-vacuity -/
 
@@ -246,3 +360,7 @@ end PhononModel.C06
 #print axioms PhononModel.C06.py_eq_c
 #print axioms PhononModel.C06.roundtrip_dm
 #print axioms PhononModel.C06.ph2ph_preserves
+#print axioms PhononModel.C06.ph2ph_preserves_at
+#print axioms PhononModel.C06.wang_plain
+#print axioms PhononModel.C06.ph2ph_wang_preserves
+#print axioms PhononModel.C06.ph2ph_gl_preserves
